@@ -65,6 +65,7 @@ type Task struct {
 	FirstRead map[ObjKey]readRec
 	LastRead  map[ObjKey]readRec
 	onDone    func(t *Task)
+	Flags     map[string]bool
 }
 
 type readRec struct {
